@@ -220,7 +220,7 @@ func driverMain(id, tier string) int {
 		n = 16
 	}
 	p := NewPool(n)
-	budget := 20 * time.Minute
+	budget := 75 * time.Minute
 	if tier == "quick" {
 		budget = 4 * time.Minute
 	}
